@@ -3,6 +3,7 @@ package bytecode
 import (
 	"bytes"
 	"encoding/hex"
+	"runtime"
 	"strings"
 
 	"github.com/tencent/goom/internal/arch/x86asm"
@@ -135,6 +136,15 @@ func isRelativeAdd(ins x86asm.Inst) bool {
 	return isAdd
 }
 
+// isRuntimeHelper 判断 CALL 的目标是否为 runtime 包内的辅助例程(或其内部的某个偏移, 比如 duffcopy+off)
+func isRuntimeHelper(target uintptr) bool {
+	fn := runtime.FuncForPC(target)
+	if fn == nil {
+		return false
+	}
+	return fn.Entry() != target || strings.HasPrefix(fn.Name(), "runtime.")
+}
+
 // GetInnerFunc Get the first real func location from wrapper
 // not absolutely safe
 func GetInnerFunc(mode int, start uintptr) (uintptr, error) {
@@ -159,11 +169,16 @@ func GetInnerFunc(mode int, start uintptr) (uintptr, error) {
 
 		if inst.Op.String() == CallInsName {
 			relativeAddr := DecodeRelativeAddr(&inst, code, inst.PCRelOff)
+			target := uintptr(0)
 			if relativeAddr >= 0 {
-				return start + uintptr(curLen) + uintptr(relativeAddr) + uintptr(inst.Len), nil
+				target = start + uintptr(curLen) + uintptr(relativeAddr) + uintptr(inst.Len)
+			} else if curLen+int(relativeAddr) < 0 {
+				target = start + uintptr(curLen) - uintptr(-relativeAddr) + uintptr(inst.Len)
 			}
-			if curLen+int(relativeAddr) < 0 {
-				return start + uintptr(curLen) - uintptr(-relativeAddr) + uintptr(inst.Len), nil
+			// 泛型 wrapper 在调用真正的 shape 函数之前, 可能先调用 runtime 的辅助例程
+			// (比如通过 runtime.duffcopy+off 拷贝栈上传递的大 receiver/参数), 这些调用不是要找的内部函数
+			if target != 0 && !isRuntimeHelper(target) {
+				return target, nil
 			}
 		}
 
